@@ -198,6 +198,79 @@ fn final_contents<E: Elem>(b: &BumpBox<'_, [E]>, model: &[u32], ctx: &mut VCtx, 
     }
 }
 
+/// A consuming operation (into_iter, map, map_in_place, splice) that still runs with panic fuel armed.
+/// Afterwards its owner is gone: every value it held must have been dropped exactly once (values lost
+/// by a panic that came out of a `Drop` are exempt).
+fn consuming<E: Elem>(ctx: &mut VCtx, name: &str, expect: Vec<u32>, f: impl FnOnce() -> Vec<u32>) {
+    ctx.begin(name.to_string());
+    let r = guarded(f);
+    tr::set_fuel(None);
+    match r {
+        Ok(got) => {
+            if got != expect {
+                ctx.viol("C08", format!("consuming_result_differs:{}", name.split_whitespace().next().unwrap_or("?")), format!("real {:?} expected {:?}", &got[..got.len().min(24)], &expect[..expect.len().min(24)]));
+            }
+            ctx.ev("finalised");
+        }
+        Err(p) => match classify(&p) {
+            PanicKind::Fuel => ctx.ev("panic_injected"),
+            k => ctx.viol("C08", format!("unexpected_panic:{}", name.split_whitespace().next().unwrap_or("?")), format!("{k:?}")),
+        },
+    }
+    let lv = tr::ledger_view();
+    if !lv.double_drops.is_empty() {
+        ctx.viol("C06", format!("value_dropped_twice:{}", name.split_whitespace().next().unwrap_or("?")), format!("ids {:?}", lv.double_drops));
+    }
+    if !lv.use_after_drop.is_empty() {
+        ctx.viol("C06", format!("value_used_after_drop:{}", name.split_whitespace().next().unwrap_or("?")), format!("ids {:?}", lv.use_after_drop));
+    }
+    tr::clear_incidents();
+    if E::TRACKED && !E::ZST {
+        let lost: Vec<u32> = lv.live_ids.iter().copied().filter(|i| !ctx.leaked.contains(i)).collect();
+        if !lost.is_empty() {
+            if !lv.panicked_in_drop {
+                ctx.viol("C06", format!("value_lost:{}", name.split_whitespace().next().unwrap_or("?")), format!("ids {:?} still alive after the owner is gone", &lost[..lost.len().min(8)]));
+            }
+            ctx.leaked.extend(lost);
+        }
+    } else if E::TRACKED {
+        if lv.z_live != ctx.leaked_z {
+            if !(lv.panicked_in_drop && lv.z_live > ctx.leaked_z) {
+                ctx.viol("C06", format!("zst_value_count:{}", name.split_whitespace().next().unwrap_or("?")), format!("{} live after the owner is gone ({} leaked)", lv.z_live, ctx.leaked_z));
+            }
+            ctx.leaked_z = lv.z_live;
+        }
+    }
+}
+
+fn take_both_ends<E: Elem>(it: &mut (impl Iterator<Item = E> + DoubleEndedIterator), k: usize, j: usize) -> Vec<u32> {
+    let mut out = Vec::new();
+    for _ in 0..k {
+        match it.next() {
+            Some(e) => out.push(e.val()),
+            None => break,
+        }
+    }
+    let mut back = Vec::new();
+    for _ in 0..j {
+        match it.next_back() {
+            Some(e) => back.push(e.val()),
+            None => break,
+        }
+    }
+    back.reverse();
+    out.extend(back);
+    out
+}
+
+fn expect_both_ends(model: &[u32], k: usize, j: usize) -> Vec<u32> {
+    let k = k.min(model.len());
+    let j = j.min(model.len() - k);
+    let mut v = model[..k].to_vec();
+    v.extend_from_slice(&model[model.len() - j..]);
+    v
+}
+
 fn body<A, S, E>(ctx: &mut VCtx, p: &CollParams, fam: Fam, fail: FailPlan)
 where
     A: MonHandle + BaseAllocator<S::GuaranteedAllocated>,
@@ -245,9 +318,25 @@ where
             };
             model = init.iter().map(|x| x % E::MODULUS).collect();
             run_ops::<E>(&mut b, &mut model, ctx, p.ops, None);
-            tr::set_fuel(None);
-            ctx.begin("drop BumpBox".into());
-            drop(b);
+            let (k, j) = (ctx.rng.range(0, 4), ctx.rng.range(0, 4));
+            match ctx.rng.below(3) {
+                0 => consuming::<E>(ctx, "BumpBox<[T]>::into_iter partially consumed", expect_both_ends(&model, k, j), || {
+                    let mut it = b.into_iter();
+                    take_both_ends(&mut it, k, j)
+                }),
+                1 => consuming::<E>(ctx, "BumpBox<[T]>::map_in_place", model.iter().map(|x| x.wrapping_add(1) % E::MODULUS).collect(), || {
+                    let m = b.map_in_place(|e| {
+                        tr::burn();
+                        E::make(e.val().wrapping_add(1))
+                    });
+                    m.iter().map(|e| e.val()).collect()
+                }),
+                _ => {
+                    tr::set_fuel(None);
+                    ctx.begin("drop BumpBox".into());
+                    drop(b);
+                }
+            }
         }
         Fam::Fixed => {
             let cap = ctx.rng.range(0, 40);
@@ -260,14 +349,30 @@ where
                 ctx.viol("C08", "with_capacity_promise_not_kept:FixedBumpVec".into(), format!("asked {cap} got {}", v.capacity()));
             }
             run_ops::<E>(&mut v, &mut model, ctx, p.ops, None);
-            tr::set_fuel(None);
-            if ctx.rng.bool() {
+            let (k, j) = (ctx.rng.range(0, 4), ctx.rng.range(0, 4));
+            let pick = ctx.rng.below(4);
+            if pick == 0 {
+                consuming::<E>(ctx, "FixedBumpVec::into_iter partially consumed", expect_both_ends(&model, k, j), || {
+                    let mut it = v.into_iter();
+                    take_both_ends(&mut it, k, j)
+                });
+            } else if pick == 1 {
+                consuming::<E>(ctx, "FixedBumpVec::map_in_place", model.iter().map(|x| x.wrapping_add(1) % E::MODULUS).collect(), || {
+                    let m = v.map_in_place(|e| {
+                        tr::burn();
+                        E::make(e.val().wrapping_add(1))
+                    });
+                    m.iter().map(|e| e.val()).collect()
+                });
+            } else if pick == 2 {
+                tr::set_fuel(None);
                 ctx.begin("FixedBumpVec::into_boxed_slice".into());
                 let b = v.into_boxed_slice();
                 final_contents(&b, &model, ctx, "FixedBumpVec");
                 ctx.ev("finalised");
                 drop(b);
             } else {
+                tr::set_fuel(None);
                 ctx.begin("drop FixedBumpVec".into());
                 drop(v);
             }
@@ -284,8 +389,66 @@ where
                 ctx.viol("C08", "with_capacity_promise_not_kept:BumpVec".into(), format!("asked {cap} got {}", v.capacity()));
             }
             run_ops::<E>(&mut v, &mut model, ctx, p.ops, None);
+            let (k, j) = (ctx.rng.range(0, 4), ctx.rng.range(0, 4));
+            let pick = ctx.rng.below(8);
+            if pick >= 4 {
+                match pick {
+                    4 => consuming::<E>(ctx, "BumpVec::into_iter partially consumed", expect_both_ends(&model, k, j), || {
+                        let mut it = v.into_iter();
+                        take_both_ends(&mut it, k, j)
+                    }),
+                    5 => consuming::<E>(ctx, "BumpVec::map_in_place", model.iter().map(|x| x.wrapping_add(1) % E::MODULUS).collect(), || {
+                        let m = v.map_in_place(|e| {
+                            tr::burn();
+                            E::make(e.val().wrapping_add(1))
+                        });
+                        m.iter().map(|e| e.val()).collect()
+                    }),
+                    6 => consuming::<E>(ctx, "BumpVec::map to u32", model.clone(), || {
+                        let m = v.map(|e| {
+                            tr::burn();
+                            e.val()
+                        });
+                        m.iter().copied().collect()
+                    }),
+                    _ => {
+                        // splice: replace a range by new elements, dropping the iterator early or late
+                        let len = model.len();
+                        let a = ctx.rng.range(0, len);
+                        let b = ctx.rng.range(a, len);
+                        let n_new = ctx.rng.range(0, 5);
+                        let news: Vec<u32> = (0..n_new).map(|_| ctx.rng.below(E::MODULUS as usize) as u32).collect();
+                        let take = ctx.rng.range(0, b - a + 1);
+                        let mut exp_model = model.clone();
+                        let removed: Vec<u32> = exp_model.splice(a..b, news.iter().copied()).collect();
+                        let mut expect: Vec<u32> = removed.iter().copied().take(take).collect();
+                        expect.push(u32::MAX);
+                        expect.extend(exp_model.iter().copied());
+                        consuming::<E>(ctx, &format!("BumpVec::splice {a}..{b} with {n_new} new, pulling {take}"), expect, || {
+                            let mut out: Vec<u32> = Vec::new();
+                            {
+                                let mut sp = v.splice(a..b, news.iter().map(|x| {
+                                    tr::burn();
+                                    E::make(*x)
+                                }));
+                                for _ in 0..take {
+                                    match sp.next() {
+                                        Some(e) => out.push(e.val()),
+                                        None => break,
+                                    }
+                                }
+                            }
+                            out.push(u32::MAX);
+                            out.extend(v.iter().map(|e| e.val()));
+                            drop(v);
+                            out
+                        });
+                    }
+                }
+                tr::set_fuel(None);
+            } else {
             tr::set_fuel(None);
-            match ctx.rng.below(4) {
+            match pick {
                 0 => {
                     ctx.begin("BumpVec::into_boxed_slice".into());
                     let b = v.into_boxed_slice();
@@ -310,6 +473,7 @@ where
                     ctx.begin("drop BumpVec".into());
                     drop(v);
                 }
+            }
             }
         }
         Fam::Mut | Fam::Rev => {
